@@ -69,6 +69,10 @@ impl Dml {
             Dml::Ins(t, id, v) if t.starts_with('w') => {
                 format!("INSERT INTO {} VALUES ({}, {}, '{}')", t, id, v, "p".repeat(600))
             }
+            // rows longer than a page: overflow chains are allocated, and freed again by DELETE + VACUUM
+            Dml::Ins(t, id, v) if t.starts_with('v') => {
+                format!("INSERT INTO {} VALUES ({}, {}, '{}')", t, id, v, "q".repeat(4000 + (*id as usize % 5) * 1500))
+            }
             Dml::Ins(t, id, v) => format!("INSERT INTO {} VALUES ({}, {})", t, id, v),
             Dml::Upd(t, id, v) => format!("UPDATE {} SET v = {} WHERE id = {}", t, v, id),
             Dml::Del(t, id) => format!("DELETE FROM {} WHERE id = {}", t, id),
@@ -76,7 +80,7 @@ impl Dml {
     }
     fn parse(ws: &[&str]) -> Option<Dml> {
         Some(match ws {
-            ["crt", t] if t.starts_with('w') => Dml::CrtW(t.to_string()),
+            ["crt", t] if t.starts_with('w') || t.starts_with('v') => Dml::CrtW(t.to_string()),
             ["crt", t] if t.starts_with('x') => Dml::CrtX(t.to_string()),
             ["crt", t] => Dml::Crt(t.to_string()),
             ["drp", t] => Dml::Drp(t.to_string()),
@@ -454,7 +458,7 @@ fn observe_image(img: &Image, tables: &[String], cfg: DBConfig, nested: bool) ->
                                 Ok(QueryResult::Rows(r)) => r.len(),
                                 _ => continue, // table absent in this image
                             };
-                            let ins = if t.starts_with('w') {
+                            let ins = if t.starts_with('w') || t.starts_with('v') {
                                 format!("INSERT INTO {} VALUES (900001, 900001, 'p')", t)
                             } else {
                                 format!("INSERT INTO {} VALUES (900001, 900001)", t)
@@ -862,6 +866,9 @@ impl Engine for CrashEngine {
 ///   drop_table    DROP TABLE and re-CREATE
 ///   vacuum        VACUUM in the middle
 ///   steal         wide rows and a cache of 8-16 frames: dirty pages are evicted (written in place) between checkpoints
+///   overflow      rows longer than a page (overflow chains), DELETE + VACUUM in the middle so that freed pages are re-used
+///   indexed       tables with a unique secondary index (index plan vs scan compared at every crash point)
+///   mixed_txn     committed sessions that UPDATE / DELETE older rows, span two tables, or create a table (commit or rollback)
 ///   big_log       wide rows and 60–120 steps: the log spans several blocks between checkpoints
 fn gen_workload(rng: &mut Rng, _head: &str, idx: usize) -> (Vec<Op>, Vec<String>, usize) {
     let family = match idx % 10 {
@@ -877,15 +884,15 @@ fn gen_workload(rng: &mut Rng, _head: &str, idx: usize) -> (Vec<Op>, Vec<String>
         7 => "drop_table",
         8 => "vacuum",
         // steal: wide rows and a cache of a few frames, so that dirty pages are evicted (written in place) between checkpoints
-        _ => if idx % 20 == 9 { "steal" } else { "big_log" },
+        _ => if idx % 20 == 9 { "steal" } else if idx % 40 == 19 { "overflow" } else { "big_log" },
     };
     let mut ops = Vec::new();
     let mut tags: Vec<String> = vec![format!("0fam_{}", family)];
     let ntables = 1 + rng.below(2) as usize;
     // big_log: wide rows (table names starting with `w`), so that the log spans several blocks between checkpoints
-    let wide = family == "big_log" || family == "steal";
+    let wide = family == "big_log" || family == "steal" || family == "overflow";
     let indexed = family == "indexed";
-    let prefix = if wide { "w" } else if indexed { "x" } else { "t" };
+    let prefix = if family == "overflow" { "v" } else if wide { "w" } else if indexed { "x" } else { "t" };
     let tables: Vec<String> = (1..=ntables).map(|i| format!("{}{}", prefix, i)).collect();
     for t in &tables {
         ops.push(Op::Auto(if wide { Dml::CrtW(t.clone()) } else if indexed { Dml::CrtX(t.clone()) } else { Dml::Crt(t.clone()) }));
@@ -896,7 +903,7 @@ fn gen_workload(rng: &mut Rng, _head: &str, idx: usize) -> (Vec<Op>, Vec<String>
     let mut next_id: BTreeMap<String, i64> = tables.iter().map(|t| (t.clone(), 1)).collect();
     let mut live: BTreeMap<String, Vec<i64>> = tables.iter().map(|t| (t.clone(), vec![])).collect();
     let long = idx % 4 == 0;
-    let steps = if wide { 60 + rng.below(60) as usize } else { 4 + rng.below(if long { 40 } else { 10 }) as usize };
+    let steps = if family == "overflow" { 20 + rng.below(25) as usize } else if wide { 60 + rng.below(60) as usize } else { 4 + rng.below(if long { 40 } else { 10 }) as usize };
     let mut sess = 0u32;
     let mut special_done = false;
     // indexed family: v is unique per table; values freed by a committed autocommit DELETE (first table only) may be taken over
@@ -951,6 +958,17 @@ fn gen_workload(rng: &mut Rng, _head: &str, idx: usize) -> (Vec<Op>, Vec<String>
                     continue;
                 }
                 "vacuum" => {
+                    ops.push(Op::Vacuum);
+                    continue;
+                }
+                "overflow" => {
+                    // free the overflow chains of the rows deleted so far, so that later rows re-use their pages
+                    for _ in 0..2 {
+                        if let Some(&id) = live[&t].first() {
+                            ops.push(Op::Auto(Dml::Del(t.clone(), id)));
+                            live.get_mut(&t).unwrap().remove(0);
+                        }
+                    }
                     ops.push(Op::Vacuum);
                     continue;
                 }
@@ -1102,7 +1120,7 @@ fn gen_workload(rng: &mut Rng, _head: &str, idx: usize) -> (Vec<Op>, Vec<String>
     }
     tags.sort();
     tags.dedup();
-    let cache = if family == "steal" { 8 + 4 * rng.below(3) as usize } else { 10000 };
+    let cache = if family == "steal" { 8 + 4 * rng.below(3) as usize } else if family == "overflow" && idx % 80 == 59 { 24 } else { 10000 };
     (ops, tags, cache)
 }
 
